@@ -16,7 +16,7 @@ Pick(cands) ==
 IdleGap(r) == r.label \in {"wait_gap", "two_cycles", "two_senders"}
 Clause(r) == Pick(<<
   <<"not_released_after_idle_timeout", IdleGap(r) /\ r.gap_ms > r.idle_timeout_ms /\ ~r.released>>,
-  <<"released_before_idle_timeout", IdleGap(r) /\ r.released /\ r.released_at < r.idle_timeout_ms>>,
+  <<"released_before_idle_timeout", IdleGap(r) /\ r.released /\ r.released_at - r.idle_at_ms < r.idle_timeout_ms>>,
   <<"released_handler_not_marked_idle", IdleGap(r) /\ r.released /\ ~r.idle_row_before_send>>,
   <<"reloaded_run_did_not_continue", IdleGap(r) /\ (r.status # "completed" \/ r.result # r.expect_result)>>,
   <<"still_marked_idle_after_completion_of_reload", IdleGap(r) /\ r.status = "running" /\ r.idle_row /\ r.live_loops > 0>> >>)
